@@ -28,6 +28,8 @@ func register(p *Property) {
 	p.Run = func(c *eng.Ctx) {
 		run(c)
 		// shared: error gates in the files of package server the property is anchored in (R01.13, server part)
+		c.Rule("R20.1", "K4")
+		ruleServerLockTable(c, id)
 		if files := anchorFilesInServer[id]; len(files) > 0 {
 			c.Rule("R01.13", "K1")
 			ruleServerErrorGates(c, files...)
